@@ -220,7 +220,7 @@ static int run_vectors(const char *vpath, const char *lpath)
 				printf("MISMATCH impl=%s vector=%ld op=%s w=%d off=%d ts=%d ow=%d os=%d imm=%d a=%016lx b=%016lx old=%0*lx", IMPL, idx, opname[op], w, off, ts, ow, os, imm,
 				       (unsigned long) from_le(a, 8), (unsigned long) from_le(b, 8), 2 * w, (unsigned long) from_le(m0 + off, w));
 				printf(" got: new=%0*lx ret=%016lx rsz=%d rsg=%d guard=%d", 2 * w, (unsigned long) from_le(m1 + off, w), (unsigned long) o.r, o.rsz, o.rsg, g);
-				printf(" expected: new=%0*lx ret=%016lx%s neighbours_%s\n", 2 * w, (unsigned long) from_le(em1 + off, w), (unsigned long) from_le(er, 8), hasret ? "" : "(void)",
+				printf(" expected: new=%0*lx ret=%016lx%s rsz=%d rsg=%d neighbours_%s\n", 2 * w, (unsigned long) from_le(em1 + off, w), (unsigned long) from_le(er, 8), hasret ? "" : "(void)", hasret ? w : 0, hasret ? ts : 0,
 				       (!memcmp(m1, em1, off) && !memcmp(m1 + off + w, em1 + off + w, 16 - off - w)) ? "intact" : "CLOBBERED");
 			}
 		}
